@@ -1754,6 +1754,72 @@ def opaque_set(m: SearchModel, name: str) -> bool:
     return False
 
 
+# --------------------------------------------------------------------------- early exits
+
+
+@dataclass
+class EarlyExit:
+    loop_kind: str  # neighbour | outer
+    loop: ast.AST
+    stmt: ast.stmt  # ast.Break | ast.Return
+    guard: Formula
+    guard_text: str
+    anchor: ast.AST  # statement naming the exit in construct keys (the enclosing `if`, else the exit itself)
+
+
+def _exits_of(loop: ast.AST, skip: list[ast.AST]) -> list[ast.stmt]:
+    """`break` statements that leave `loop` and `return` statements inside its body (not those inside the loops in `skip`)."""
+    out: list[ast.stmt] = []
+
+    def walk(stmts: list[ast.stmt], nested: bool) -> None:
+        for st in stmts:
+            if any(st is x for x in skip) or isinstance(st, (ast.FunctionDef, ast.AsyncFunctionDef, ast.ClassDef)):
+                continue
+            if isinstance(st, ast.Break) and not nested:
+                out.append(st)
+            elif isinstance(st, ast.Return):
+                out.append(st)
+            inner = nested or isinstance(st, (ast.For, ast.AsyncFor, ast.While))
+            for fld in ("body", "orelse", "finalbody"):
+                blk = getattr(st, fld, None)
+                if isinstance(blk, list) and blk and isinstance(blk[0], ast.stmt):
+                    # the else of a loop runs after the loop: a break there leaves the enclosing loop
+                    walk(blk, inner if fld == "body" else nested)
+            if isinstance(st, ast.Try):
+                for h in st.handlers:
+                    walk(h.body, nested)
+            if isinstance(st, ast.Match):
+                for c in st.cases:
+                    walk(c.body, nested)
+
+    walk(loop.body, False)
+    return out
+
+
+def early_exits(m: SearchModel) -> list[EarlyExit]:
+    """Exits that leave the neighbour iteration or the node loop before all neighbours / all worklist nodes were examined.
+    `continue`, guard clauses and `raise` are not exits in this sense; `while True: if not W: break` (the worklist is empty) is
+    the loop's regular end."""
+    out: list[EarlyExit] = []
+    nloops = [i.node for i in m.neighbour_iters if i.gen is None]
+
+    def mk(kind: str, loop: ast.AST, st: ast.stmt) -> EarlyExit:
+        cs_ = all_conds(m.fi, st)
+        par = parent(st)
+        anchor = par if isinstance(par, ast.If) and len(par.body if any(x is st for x in par.body) else par.orelse) == 1 else st
+        return EarlyExit(kind, loop, st, conds_formula(cs_, m.subst), " and ".join(("" if pol else "not ") + norm(e) for e, pol in cs_) or "True", anchor)
+
+    for nl in nloops:
+        out += [mk("neighbour", nl, st) for st in _exits_of(nl, [])]
+    if m.outer_kind in ("while", "for") and isinstance(m.loop, (ast.While, ast.For, ast.AsyncFor)):
+        for st in _exits_of(m.loop, nloops):
+            ee = mk("outer", m.loop, st)
+            if isinstance(st, ast.Break) and implies(ee.guard, f_not(atom(f"bool({m.worklist})"))) and f"bool({m.worklist})" in atoms_of(ee.guard):
+                continue  # regular end of a `while True` worklist loop
+            out.append(ee)
+    return out
+
+
 # --------------------------------------------------------------------------- raising lookups (C13.R6)
 
 
